@@ -284,7 +284,7 @@ def plan(tier, seed, wave):
             return []
         nm, nr, nf, nrf = 64, 24000, 48, 6000
     else:
-        nm, nr, nf, nrf = 256, 160000, 192, 40000
+        nm, nr, nf, nrf = 48, 40000, 48, 10000   # per wave; waves repeat until VERIF_BUDGET_S is used
     tasks = []
     for j in range(0, nm):
         tasks.append({"fam": "msg", "seed": seed, "start": wave * nm + j, "n": 1, "tier": tier})
